@@ -42,11 +42,14 @@ def body(rng, p):
             p.aeqc(p.w(7), 3, 4)
 
 
-def raw_family_case(rng, fam, violate, with_body=True):
+def raw_family_case(rng, fam, violate, with_body=True, force_j=None):
     """one raw row of a chosen widget family with a satisfying (or minimally violating) assignment, followed by an anchor row"""
     p = Prog(); p.tags = ["raw-" + fam, "violate" if violate else "satisfy"]
     if with_body:
         body(rng, p)
+    def pick(n):
+        j_ = rng.below(n)             # the stream is consumed either way
+        return j_ if force_j is None else force_j % n
     q = [0] * 11
     if fam == "range":
         d = rng.fe() % 1000; qs = [rng.below(4) for _ in range(4)]
@@ -86,7 +89,7 @@ def raw_family_case(rng, fam, violate, with_body=True):
         h = P[0] * Q[1] % R
         x3, y3 = S
         if violate:
-            j = rng.below(3)
+            j = pick(3)
             if j == 0: h = (h + 1) % R
             elif j == 1: x3 = (x3 + 1) % R
             else: y3 = (y3 + 1) % R
@@ -103,7 +106,7 @@ def raw_family_case(rng, fam, violate, with_body=True):
         xy = addp[0] * addp[1] % R
         x3, y3 = S
         if violate:
-            j = rng.below(4)
+            j = pick(4)
             if j == 0: accn = (2 * acc + 2) % R
             elif j == 1: xy = (xy + 1) % R
             elif j == 2: x3 = (x3 + 1) % R
@@ -365,6 +368,12 @@ def run(ctx, broken):
                     p.op(raw(q, None, [p.ref(x) for x in ws])); p.op(raw([0] * 11, None, [p.ref(x) for x in nx]))
                     p.unsat()
                     cs.append(p.case())
+    # SYSTEMATIC curve rows: every single component of the variable-base row (helper x1*y2, x3, y3) and of the fixed-base row
+    # (digit not in {-1,0,1}, helper xy, x3, y3) violated alone, several times each
+    for fam, ncomp in (("var", 3), ("fixed", 4)):
+        for j in range(ncomp):
+            for rep in range(2 if ctx.tier == "quick" else 6):
+                cs.append(raw_family_case(rng, fam, True, with_body=False, force_j=j).case())
     # SYSTEMATIC range rows: exactly ONE of the four quad differences (c-4d, b-4c, a-4b, d_next-4a) out of {0..3} (4, 5, 7, -1),
     # the other three in range; selector values 1, -1, other
     for kq in range(4):
